@@ -525,6 +525,13 @@ theorem keeps_parseByteListArg : Keeps (PInv d) (parseByteListArg d) (fun _ => T
   constructor
   intro s hs a s' e
   unfold parseByteListArg at e
+  obtain ⟨r0, s0, e0, e⟩ := bind_ok e
+  obtain ⟨_, hs0⟩ := reader_run e0
+  rw [hs0] at e
+  split at e
+  · obtain ⟨_, hs'⟩ := pure_run e
+    rw [hs']
+    exact ⟨hs, trivial⟩
   obtain ⟨argObj, s1, e1, ea⟩ := bind_ok e
   obtain ⟨r, s2, e2, eb⟩ := bind_ok ea
   obtain ⟨_, s3, e3, ec⟩ := bind_ok eb
